@@ -388,6 +388,40 @@ def case_project_files(case):
     return core.ok(key=[case["kind"], case["history"]], outcome=len(vs), violations=vs, transitions=len(case["history"]), traces=len(case["history"]))
 
 
+def case_run_overflow(case):
+    """run counter at the end of the four-digit range: whatever Project.optimize does then (store under a longer number,
+    refuse), every run stored before stays byte-identical"""
+    import glotaran.optimization.optimize as opt_mod
+
+    o = objects()
+    vs = []
+    orig = opt_mod.optimize
+    opt_mod.optimize = lambda scheme, *a, **k: o["result"]
+    try:
+        with tempfile.TemporaryDirectory(prefix="vf-c18-") as d, warnings.catch_warnings():
+            warnings.simplefilter("ignore")
+            project = make_project(d)
+            results_dir = project.folder / "results"
+            project.optimize("m", "p", result_name="a", maximum_number_function_evaluations=1)
+            (results_dir / "a_run_0000").rename(results_dir / f"a_run_{case['start']:04d}")
+            outcomes = []
+            for step in range(case["steps"]):
+                snap = {p.name: tree_contents(p) for p in results_dir.iterdir()}
+                try:
+                    project.optimize("m", "p", result_name="a", maximum_number_function_evaluations=1)
+                    outcomes.append("stored")
+                except Exception as e:  # noqa: BLE001
+                    outcomes.append(type(e).__name__)
+                for name, content in snap.items():
+                    if not (results_dir / name).exists() or tree_contents(results_dir / name) != content:
+                        vs.append(V("earlier-run-changed", run=name, step=step, outcome=outcomes[-1], start=case["start"]))
+                if vs:
+                    break
+    finally:
+        opt_mod.optimize = orig
+    return core.ok(key=[case["start"], case["steps"]], outcome=outcomes, violations=vs)
+
+
 def case_import_names(case):
     """import_data under two names: each name has its own file; importing (or overwriting) one never touches the other"""
     from glotaran.io import load_dataset
@@ -479,7 +513,7 @@ def case_create_relative(case):
 
 
 CASE_FUNCS = {"overwrite": case_overwrite, "history": case_history, "project_files": case_project_files, "tlc_run_edge": case_tlc_run_edge,
-              "create_relative": case_create_relative, "import_names": case_import_names}  # fmt: skip
+              "create_relative": case_create_relative, "import_names": case_import_names, "run_overflow": case_run_overflow}  # fmt: skip
 
 
 def run(run: core.Run):
@@ -535,6 +569,7 @@ def run(run: core.Run):
             imp.append({"names": names, "allow": allow, "ignore": ignore})
             imp.append({"names": names[::-1], "allow": allow, "ignore": ignore})
     run.map("import_names", imp)
+    run.map("run_overflow", [{"start": st, "steps": 3} for st in (9997, 9998, 9999)])
     try:
         from vf import tlc
 
